@@ -83,6 +83,13 @@ fixed("C11", "search-version1-flag", "a16ddc1", "search() alone passed regex.VER
 # ---- C18
 fixed("C18", "nondeterministic-depth-check", "6df72eb", "nondeterministic descent raised JSONPathRecursionError for data nested exactly max_recursion_depth deep on some random outcomes (scalars counted, '>=') and missed too-deep containers visited immediately",
       {"module": "vtools.props.c18", "func": "r_limit", "args": {"limit": 3, "doc": [[[1]]], "mode": "nondet", "tapes": 64}})
+# ---- C20
+fixed("C20", "cli-name-error-traceback", "51b8e2a", "an unknown function name (JSONPathNameError) escaped handle_path_command as a traceback",
+      {"module": "vtools.props.c20", "func": "r_cli", "args": {"query": "$[?foo(@)]", "doc": "ascii"}})
+fixed("C20", "cli-recursion-error-traceback", "51b8e2a", "JSONPathRecursionError (document deeper than the limit) escaped as a traceback",
+      {"module": "vtools.props.c20", "func": "r_cli", "args": {"query": "$..*", "doc": "deep"}})
+fixed("C20", "cli-undecodable-document", "51b8e2a", "a target document that is not valid UTF-8 ended in a UnicodeDecodeError traceback",
+      {"module": "vtools.props.c20", "func": "r_cli", "args": {"query": "$", "doc": "not_utf8"}})
 # ---- C12
 fixed("C12", "negated-comparison-parens", "0cefc1d", "$[?!(@.a == 1)] was serialized as $[?!@['a'] == 1] (a different, invalid query); !(!@.a) as !!@['a']", hole("$[?!(@.a == 1)]", "roundtrip"))
 fixed("C12", "double-negation-parens", "0cefc1d", "$[?!(!@.a)] was serialized as $[?!!@['a']]", hole("$[?!(!@.a)]", "roundtrip"))
